@@ -484,6 +484,7 @@ impl Prop for C44 {
                 "storm",
                 true,
             );
+            out.op("reset", "storm", false);
         }
     }
 
